@@ -9,6 +9,7 @@ import RModel.Lemmas.Utf8
 import RModel.Lemmas.Literal
 import RModel.Lemmas.Lines
 import RModel.Lemmas.MatchEdits
+import RModel.Lemmas.Roots
 /-
   C03 — Every plan is internally consistent with the files it describes.   (property theorems only)
 -/
@@ -204,6 +205,36 @@ theorem line_geometry (vs : List Bytes) (c : Bytes) (hne : vs ≠ []) :
     rw [← hl2, List.take_left']
     rfl
 
+/-- `multi_root`: with the de-duplication of walker entries by real location (4d2e5a7), a plan over any list of search
+    roots — nested, repeated, in any order — names every reached file once: the planned entries have pairwise distinct
+    locations, and every location the walker reached is planned. -/
+theorem multi_root_files_once {α} (entries : List (Bytes × α)) :
+    (Hunks.dedupEntries entries).Pairwise (fun a b => a.1 ≠ b.1) ∧
+    (∀ e ∈ Hunks.dedupEntries entries, e ∈ entries) ∧
+    (∀ e ∈ entries, ∃ e' ∈ Hunks.dedupEntries entries, e'.1 = e.1) :=
+  ⟨Hunks.dedupAux_pairwise [] entries, fun e he => (Hunks.dedupAux_mem [] entries e he).1,
+   fun e he => Hunks.dedupAux_complete [] entries e he (by simp)⟩
+
+/-- … hence no duplicate hunks: (file, line, column) identifies a hunk of the whole plan, across roots. -/
+theorem multi_root_sort_key_unique (vs : List Bytes) (hne : vs ≠ []) (entries : List (Bytes × Bytes)) :
+    ∀ x ∈ Hunks.planRoots vs entries, ∀ y ∈ Hunks.planRoots vs entries,
+      x.1 = y.1 → x.2.line = y.2.line → x.2.column = y.2.column → x = y := by
+  intro x hx y hy hf hl hc
+  simp only [Hunks.planRoots, List.mem_flatMap, List.mem_map] at hx hy
+  obtain ⟨e1, he1, m1, hm1, rfl⟩ := hx
+  obtain ⟨e2, he2, m2, hm2, rfl⟩ := hy
+  have hee : e1 = e2 := Hunks.eq_of_key_eq (Hunks.dedupAux_pairwise [] entries) e1 he1 e2 he2 hf
+  subst hee
+  have := sort_key_unique vs e1.2 hne m1 hm1 m2 hm2 hl hc
+  rw [this]
+
+/-- before 4d2e5a7 (no de-duplication) a file reachable from two roots was planned twice: kernel-evaluated on the
+    entries the walker yields for `. sub` -/
+theorem C03_beforefix_overlapping_roots_duplicate_hunks :
+    let entries := [(b!"/w/sub/b.txt", b!"x foo_bar y\n"), (b!"/w/sub/b.txt", b!"x foo_bar y\n")]
+    (Hunks.planRootsNoDedup [b!"foo_bar"] entries).map (fun x => (x.2.start, x.2.stop)) = [(2, 9), (2, 9)] ∧
+    (Hunks.planRoots [b!"foo_bar"] entries).map (fun x => (x.2.start, x.2.stop)) = [(2, 9)] := by decide
+
 -- statistics -----------------------------------------------------------------------------------
 open Hunks
 
@@ -219,8 +250,8 @@ theorem stats_total (perFile : List (List Hunk)) :
 
 -- literal planner ------------------------------------------------------------------------------
 
-/-- Full statement for the literal planner (false today): every hunk's recorded text is what the (lossily
-    decoded) file holds at the recorded offsets. -/
+/-- Full statement for the literal planner: every hunk's recorded text is what the (lossily decoded) file holds at
+    the recorded offsets.  False before d278bf5 (`C03_beforefix_replace_line2`), a theorem since (below). -/
 def planLiteral_consistent_full : Prop :=
   ∀ (file pat repl : Bytes), pat ≠ [] →
     ∀ h ∈ planLiteral Gen.replaceOffsetsFileRelative file pat repl,
@@ -243,7 +274,7 @@ theorem planLiteral_spec (fr : Bool) (file pat repl : Bytes) (hpat : pat ≠ [])
 
 /-- `planLiteral_consistent_partial`: whatever the planner does with offsets, every hunk ON LINE 1 records the text
     that stands at its offsets (the line offset is 0 there).  Hunks on later lines are right only by coincidence
-    (`C03_witness_replace_line2`). -/
+    (`C03_beforefix_replace_line2`). -/
 theorem planLiteral_consistent_partial (fr : Bool) (file pat repl : Bytes) (hpat : pat ≠ []) :
     ∀ h ∈ planLiteral fr file pat repl, h.line = 1 →
       ((Utf8.lossy file).take h.stop).drop h.start = h.content := by
@@ -274,21 +305,28 @@ theorem planLiteral_consistent_current (file pat repl : Bytes) (hpat : pat ≠ [
     exact planLiteral_consistent_fileRelative file pat repl hpat h hh
   · exact planLiteral_consistent_partial _ file pat repl hpat h hh hg
 
+/-- `planLiteral_consistent`: the full statement holds for the planner AS IT IS NOW.  `Gen.replaceOffsetsFileRelative` is
+    regenerated from scanner.rs by translate/replace_offsets.py on every run; should `process_file_content` stop adding the
+    line offset, the flag flips to `false`, `decide` fails here and the check reports the broken proof. -/
+theorem planLiteral_consistent : planLiteral_consistent_full := by
+  intro file pat repl hpat h hh
+  exact planLiteral_consistent_current file pat repl hpat h hh (Or.inl (by decide))
+
 /-- for a file that is valid UTF-8 the text searched IS the file -/
 theorem planLiteral_valid_file (file : Bytes) (hv : Utf8.valid file = true) : Utf8.lossy file = file :=
   lossy_of_valid hv
 
-/-- The defect, kernel-evaluated: `renamify replace --no-regex foo bar` on "first line\nsecond foo line":
+/-- The defect repaired by d278bf5, kernel-evaluated on the planner WITHOUT the line offset: `renamify replace --no-regex foo bar` on "first line\nsecond foo line":
     the hunk on line 2 records 7..10, where the file reads "ine"; the text is at 18..21. -/
-theorem C03_witness_replace_line2 :
+theorem C03_beforefix_replace_line2 :
     planLiteral false b!"first line\nsecond foo line" b!"foo" b!"bar" =
       [{ line := 2, byteOffset := 7, charOffset := 7, start := 7, stop := 10, content := b!"foo", replace := b!"bar",
          lineBefore := b!"second foo line", lineAfter := b!"second bar line" }] ∧
     (b!"first line\nsecond foo line".take 10).drop 7 = b!"ine" ∧
     (b!"first line\nsecond foo line".take 21).drop 18 = b!"foo" := by decide
 
-/-- same facts under the ids of the listed findings -/
-theorem C03_witness_replace_line_relative_offsets :
+/-- the line-1 guard of `planLiteral_consistent_partial` was necessary before the fix -/
+theorem C03_beforefix_replace_line_relative_offsets :
     ∃ h ∈ planLiteral false b!"first line\nsecond foo line" b!"foo" b!"bar",
       ((Utf8.lossy b!"first line\nsecond foo line").take h.stop).drop h.start ≠ h.content := by decide
 
@@ -312,5 +350,19 @@ example : (findMatches [b!"foo"] b!"x foo\ny foo\r\n").map (fun m => (m.line, m.
 theorem C03_witness_replace_lossy_offsets :
     ∃ h ∈ planLiteral true [0xFF, 32, 102, 111, 111, 10] b!"foo" b!"bar",
       (([0xFF, 32, 102, 111, 111, 10] : Bytes).take h.stop).drop h.start ≠ h.content := by decide
+
+/-- Line context on a line that is not valid UTF-8 in front of the match (`foo_bar \xff foo_bar z`, second match): the raw
+    column 10 falls inside U+FFFD of the decoded line, the `find` fallback replaces the FIRST occurrence, and `char_offset`
+    counts 9 characters instead of 10.  Exactly what the real planner records (finding invalid_utf8_line_context). -/
+theorem C03_witness_invalid_utf8_line_context :
+    let c : Bytes := b!"foo_bar " ++ [0xFF] ++ b!" foo_bar z\n"
+    Hunks.hunkGeomAt c 10 17 b!"foo_bar" b!"baz" =
+      .ok { line := 1, byteOffset := 10, charOffset := 9, start := 10, stop := 17, content := b!"foo_bar", replace := b!"baz",
+            lineBefore := b!"foo_bar \ufffd foo_bar z\n", lineAfter := b!"baz \ufffd foo_bar z\n" } .fallback := by decide
+
+/-- before ac203f2 the planner panicked there (`line_string[match_col..]`, C16) -/
+theorem C03_beforefix_invalid_utf8_panics :
+    let c : Bytes := b!"foo_bar " ++ [0xFF] ++ b!" foo_bar z\n"
+    Hunks.hunkGeomAtOld c 10 17 b!"foo_bar" b!"baz" = .panic := by decide
 
 end C03
